@@ -91,6 +91,20 @@ theorem runActs_inv (input : List Int) : ∀ (acts : List Act) (c : Coll), CollI
         unfold CollInv at h ⊢
         simp only [hd] at h
         exact ⟨c.batches, srcVals input src, md, [], by simp, rfl, h, by intro x hx; cases hx⟩
+    | emitEcho src prop =>
+      simp only [runActs]
+      cases hd : c.dataIdx with
+      | some i =>
+        simp only []
+        by_cases hp : prop = true
+        · simp only [hp, if_true]; exact h
+        · simp only [hp]; exact ih c h
+      | none =>
+        simp only []
+        apply ih
+        unfold CollInv at h ⊢
+        simp only [hd] at h
+        exact ⟨c.batches, srcVals input src, [], [], by simp, rfl, h, by intro x hx; cases hx⟩
     | finish prop =>
       simp only [runActs]
       by_cases hpr : c.producer = true
